@@ -14,6 +14,12 @@ CHECKS = {
             "transition is replayed on the real code (edge cover, zero drift required for the claim); random histories "
             "beyond the bounds are recorded from the real code and validated by TLC against P_C04.",
             "5 C04", TECH, BOUNDS),
+    "C05": ("model_checking",
+            "TLC checks L1 against the tap-hold monitor P_C05 (exclusivity, documented decision rules with exact ticks in the "
+            "sharp zone, buffering order, eventual resolution) for every schedule within the instance bounds, per variant / "
+            "hold timeout / tap-repress window / concurrency setting; edge-cover replay binds L1 to the code; random schedules "
+            "with gaps around H are recorded from the code and validated by TLC against P_C05.",
+            "5 C05", TECH, BOUNDS),
 }
 
 NOT_APPLICABLE = {}
